@@ -14,7 +14,7 @@
    The hypotheses that remain are premises of the theorems below (nothing is assumed globally). *)
 From stdpp Require Import gmap strings sorting.
 Require Import Grits.Base Grits.Forms Grits.Expand Grits.TcTop Grits.Runtime.
-Require Import Grits.RuntimeFootprint Grits.proofs.RuntimeFacts Grits.proofs.Diamond Grits.proofs.Determinism Grits.proofs.AsyncSync Grits.proofs.RuntimeCheckFacts Grits.proofs.DeterminismExamples.
+Require Import Grits.RuntimeFootprint Grits.proofs.RuntimeFacts Grits.proofs.Diamond Grits.proofs.Determinism Grits.proofs.AsyncSync Grits.proofs.RuntimeCheckFacts Grits.proofs.ForkJoin Grits.proofs.DeterminismExamples.
 
 Theorem C03_step_is_move : forall md D F c ch, step md D F c ch = sres_of c (move_of md D F c ch).
 Proof. exact step_move. Qed.
@@ -176,6 +176,46 @@ Theorem C03_exec_check_run : forall fuel pick md D F c st,
   (exec_check fuel pick md D F c st).1 = exec_run fuel pick md D F c.
 Proof. exact exec_check_run. Qed.
 
+(* UNCONDITIONAL, for a syntactic class (fork-join configurations: close self / wait / new with a
+   closed child / print / parameterless calls, one provider per process; `FJ c` is a structural
+   property of the configuration, decided by `fj_cfg_b`): no invariant hypothesis is left. *)
+Theorem C03_forkjoin_invariant : forall D F c ch c', fj_funs F -> FJ c -> step Async D F c ch = SStep c' -> FJ c'.
+Proof. exact FJ_step. Qed.
+
+Theorem C03_forkjoin_determinism : forall D F c pick1 pick2 f1 f2 t1,
+  fj_funs F -> FJ c -> exec_run f1 pick1 Async D F c = RQuiescent t1 -> (f1 <= f2)%nat ->
+  exists t2, exec_run f2 pick2 Async D F c = RQuiescent t2 /\ cfg_equiv t2 t1 /\ labels t2 ≡ₚ labels t1.
+Proof. exact forkjoin_determinism. Qed.
+
+Theorem C03_forkjoin_error_excludes_completion : forall D F c pick1 pick2 f1 f2 t1 who e t2,
+  fj_funs F -> FJ c -> exec_run f1 pick1 Async D F c = RError t1 who e ->
+  exec_run f2 pick2 Async D F c = RQuiescent t2 -> False.
+Proof. exact forkjoin_error_excludes_completion. Qed.
+
+Theorem C03_forkjoin_async_sync : forall D F c pick1 f1 t1,
+  fj_funs F -> FJ c -> bufs_empty c -> exec_run f1 pick1 Sync D F c = RQuiescent t1 ->
+  exists n, forall pick2 f2, (n < f2)%nat ->
+    exists t2, exec_run f2 pick2 Async D F c = RQuiescent t2 /\ labels t2 ≡ₚ labels t1.
+Proof. exact forkjoin_async_sync. Qed.
+
+Theorem C03_forkjoin_program_determinism : forall (p : program) pick1 pick2 f1 f2 t1,
+  fj_funs_b (p_funs p) = true -> fj_cfg_b (init_config p) = true ->
+  exec_run f1 pick1 Async (p_types p) (p_funs p) (init_config p) = RQuiescent t1 -> (f1 <= f2)%nat ->
+  exists t2, exec_run f2 pick2 Async (p_types p) (p_funs p) (init_config p) = RQuiescent t2 /\
+             cfg_equiv t2 t1 /\ labels t2 ≡ₚ labels t1.
+Proof. exact forkjoin_program_determinism. Qed.
+
+Example C03_forkjoin_class_inhabited :
+  fj_program_b demo_text = Some true /\ fj_program_b hello_text = Some true /\ fj_program_b par_text = Some true.
+Proof. exact (conj demo_in_class (conj hello_in_class par_in_class)). Qed.
+
+Example C03_demo_every_schedule :
+  exists p, accepted demo_text = Some p /\
+  forall pick f, (100 <= f)%nat ->
+    exists t, exec_run f pick Async (p_types p) (p_funs p) (init_config p) = RQuiescent t /\
+              labels t ≡ₚ ["right"; "left"; "done"].
+Proof. exact demo_every_schedule. Qed.
+
 (* non-vacuity, on a program that goes through the model of the real front end *)
 Example C03_demo_two_orders_async :
   run_labels Async pick_first demo_text = Some ["right"; "left"; "done"] /\
@@ -220,6 +260,13 @@ Print Assumptions C03_no_longer_run.
 Print Assumptions C03_bufs_empty_init.
 Print Assumptions C03_sync_run_matched.
 Print Assumptions C03_async_sync_agree_partial.
+Print Assumptions C03_forkjoin_invariant.
+Print Assumptions C03_forkjoin_determinism.
+Print Assumptions C03_forkjoin_error_excludes_completion.
+Print Assumptions C03_forkjoin_async_sync.
+Print Assumptions C03_forkjoin_program_determinism.
+Print Assumptions C03_forkjoin_class_inhabited.
+Print Assumptions C03_demo_every_schedule.
 Print Assumptions C03_check_sound.
 Print Assumptions C03_exec_check_run.
 Print Assumptions C03_demo_two_orders_async.
